@@ -26,6 +26,20 @@ PATTERNS = [
 KS = [None, 1, 2, 3, 5]
 
 
+
+def ids_owned(lst, ser):
+    """like adapter.ids; the result list is the CALLER's: an empty one is extended in place afterwards (an application that
+    accumulates results, `found = a.find_all(x); found += b.find_all(y)`), and no later result may show what a caller added"""
+    from nutree import Node as _Node
+
+    if any(not isinstance(x, _Node) for x in lst):
+        raise ValueError(f"a result list that an earlier caller had extended was handed out again: {lst!r}")
+    r = adapter.ids(lst, ser)
+    if isinstance(lst, list) and not lst:
+        lst.append("added by the caller")
+    return r
+
+
 def matcher(kind, arg, pool):
     if kind == "re":
         return arg, (lambda n: re.fullmatch(arg, n.name) is not None)
@@ -82,9 +96,9 @@ def check_tree(ctx, out, spec, tag, rot, levelorder=False, tree=None):
             for k in ks:
                 for add_self in ((False, True) if path else (False,)):
                     if path:
-                        impl = g(lambda: adapter.ids(start.find_all(match=marg, add_self=add_self, max_results=k), ser))
+                        impl = g(lambda: ids_owned(start.find_all(match=marg, add_self=add_self, max_results=k), ser))
                     else:
-                        impl = g(lambda: adapter.ids(tree.find_all(match=marg, max_results=k), ser))
+                        impl = g(lambda: ids_owned(tree.find_all(match=marg, max_results=k), ser))
                     case = dict(q="nodeMatch", spec=spec, path=list(path), pat=[kind, repr(arg)], k=k, self=add_self, levelorder=levelorder)
                     reqs.append({"op": "search", "q": "nodeMatch", "t": tj, "path": list(path), "m": tbl, "k": k, "self": add_self})
                     pend.append((case, impl, f"find_all(match={arg!r}, max_results={k}, add_self={add_self}) at {list(path)}"))
@@ -100,7 +114,7 @@ def check_tree(ctx, out, spec, tag, rot, levelorder=False, tree=None):
             for did_real in sorted({n.data_id for n in nodes}, key=repr)[:4]:
                 d = pool.canon_did(did_real)
                 for add_self in (False, True):
-                    impl = g(lambda: [adapter.ids(start.find_all(data_id=did_real, add_self=add_self), ser), i(start.find_first(data_id=did_real))])
+                    impl = g(lambda: [ids_owned(start.find_all(data_id=did_real, add_self=add_self), ser), i(start.find_first(data_id=did_real))])
                     case = dict(q="nodeId", spec=spec, path=list(path), did=d, self=add_self, levelorder=levelorder)
                     reqs.append({"op": "search", "q": "nodeId", "t": tj, "path": list(path), "did": d, "self": add_self})
                     pend.append((case, impl, f"node.find_all(data_id={d!r}, add_self={add_self}) at {list(path)}"))
@@ -114,7 +128,7 @@ def check_tree(ctx, out, spec, tag, rot, levelorder=False, tree=None):
             for o in objs[:3]:
                 d = pool.canon_did(tree.calc_data_id(o))
                 for add_self in (False, True):
-                    impl = g(lambda: [adapter.ids(start.find_all(o, add_self=add_self), ser), i(start.find_first(o))])
+                    impl = g(lambda: [ids_owned(start.find_all(o, add_self=add_self), ser), i(start.find_first(o))])
                     case = dict(q="nodeId", spec=spec, path=list(path), did=d, self=add_self, by="data", levelorder=levelorder)
                     reqs.append({"op": "search", "q": "nodeId", "t": tj, "path": list(path), "did": d, "self": add_self})
                     pend.append((case, impl, f"node.find_all({o!r}, add_self={add_self}) at {list(path)}"))
@@ -125,7 +139,11 @@ def check_tree(ctx, out, spec, tag, rot, levelorder=False, tree=None):
     for n in nodes:
         if n.data_id not in dids:
             dids.append(n.data_id)
-    by_data = [[pool.canon_did(d), adapter.ids(tree.find_all(data_id=d), ser)] for d in dids]
+    try:
+        by_data = [[pool.canon_did(d), ids_owned(tree.find_all(data_id=d), ser)] for d in dids]
+    except ValueError as e:
+        out.fail(dict(q="treeId", spec=spec, did=None, k=None, levelorder=levelorder), f"tree.find_all(data_id=...): {e}")
+        return
     known = {ser.of(n) for n in nodes}
     ghosts = [(d, [x for x in l if x not in known]) for d, l in by_data if any(x not in known for x in l)]
     if ghosts:
@@ -144,9 +162,9 @@ def check_tree(ctx, out, spec, tag, rot, levelorder=False, tree=None):
                 real = {v: k_ for k_, v in pool.hash_canon.items()}.get(dc, dc)
             else:
                 real = d_real
-            impl = g(lambda: [adapter.ids(tree.find_all(data_id=real, max_results=k), ser), i(tree.find_first(data_id=real)), None])
+            impl = g(lambda: [ids_owned(tree.find_all(data_id=real, max_results=k), ser), i(tree.find_first(data_id=real)), None])
             if isinstance(impl, list):
-                impl[2] = bool(adapter.ids(tree.find_all(data_id=real), ser))
+                impl[2] = g(lambda: bool(ids_owned(tree.find_all(data_id=real), ser)))
             case = dict(q="treeId", spec=spec, did=dc, k=k, levelorder=levelorder)
             reqs.append({"op": "search", "q": "treeId", "t": tj, "byData": by_data, "did": dc, "k": k})
             pend.append((case, impl, f"tree.find_all(data_id={dc!r}, max_results={k})"))
@@ -156,7 +174,7 @@ def check_tree(ctx, out, spec, tag, rot, levelorder=False, tree=None):
         o = pool.objs[a]
         dc = pool.canon_did(tree.calc_data_id(o))
         for k in (None, 1, 2):
-            impl = g(lambda: [adapter.ids(tree.find_all(o, max_results=k), ser), i(tree.find_first(o)), o in tree])
+            impl = g(lambda: [ids_owned(tree.find_all(o, max_results=k), ser), i(tree.find_first(o)), o in tree])
             case = dict(q="treeId", spec=spec, data=a, did=dc, k=k, levelorder=levelorder)
             reqs.append({"op": "search", "q": "treeId", "t": tj, "byData": by_data, "did": dc, "k": k})
             pend.append((case, impl, f"tree.find_all({o!r}, max_results={k}) / find_first / in"))
